@@ -2084,10 +2084,11 @@ def build_cases(pairs, thorough):
                 raise T.MachineryError("no builder for media mutation %s/%s" % (k, m))
         elif k not in PARSERS:
             raise T.MachineryError("no parser %s" % k)
+        # quick tier: every variant in the anchor states, the first variant(s) of every pair elsewhere
         if not thorough and m != "none" and sub != "parser" and (role, st) not in anchors:
+            case["vmax"] = 1
+        if not thorough and m == "none" and sub != "parser" and (role, st) not in anchors:
             case["vmax"] = 2
-        if not thorough and m == "none" and sub == "sctp" and (role, st) not in anchors:
-            case["vmax"] = 3
         cases.append(case)
         if thorough and sub == "sctp" and m == "none" and st in ("est_idle", "est_out", "cookie_echoed"):
             cases.append(dict(case, origin=1))
@@ -2179,10 +2180,14 @@ def run():
                 if not dr.violated:
                     raise T.MachineryError("sensitivity: deviation %s produces no counter-example" % d)
         t_model = time.time() - t0
+        cpu0 = os.times()
 
         cases = build_cases(pairs, thorough)
         traces = run_cases(cases, thorough, 12)
         t_exec = time.time() - t0 - t_model
+        cpu1 = os.times()
+        cpu_exec = (cpu1.children_user + cpu1.children_system + cpu1.user + cpu1.system) - \
+                   (cpu0.children_user + cpu0.children_system + cpu0.user + cpu0.system)
         if not traces:
             raise T.MachineryError("no executions recorded")
 
@@ -2283,7 +2288,7 @@ def run():
             "action_coverage": {k: v[1] for k, v in counts.items()},
             "budget_events": dict(BUDGET),
             "binding_selftest": "6 corrupted traces rejected with the expected clauses, 1 ValueError parse accepted",
-            "timing_s": {"model": round(t_model, 1), "execution": round(t_exec, 1), "total": round(time.time() - t0, 1)},
+            "timing_s": {"model": round(t_model, 1), "execution": round(t_exec, 1), "execution_cpu": round(cpu_exec, 1), "total": round(time.time() - t0, 1)},
         }
         rep.assumptions = [
             "SRTP is an identity stub: datagrams libsrtp would reject also reach _handle_rtp_data/_handle_rtcp_data",
